@@ -397,6 +397,10 @@ SPECS += [
 ]
 
 
+from .srcspecs_gcsa import SPECS_GCSA  # noqa: E402  (third extension, tag gcsa: calgebra/gcsa.py)
+SPECS += SPECS_GCSA
+
+
 def regenerate(repo: Path, coq_dir: Path):
     """Rewrite Gen/Source.v if its content changed.  Returns ({name: error}, text)."""
     text, errors = pysrc.translate_all(repo, SPECS, HEADER)
